@@ -62,6 +62,16 @@ func (r *btreeRunner) Do(op []string) string {
 	case "remove":
 		r.t.Remove(atoi(op[1]))
 		return "ok"
+	case "fillasc": // long runs: n Puts of ascending keys (value = key) in one line
+		for a, i := atoi(op[1]), 0; i < atoi(op[2]); i++ {
+			r.t.Put(a+i, a+i)
+		}
+		return "ok"
+	case "removeasc":
+		for a, i := atoi(op[1]), 0; i < atoi(op[2]); i++ {
+			r.t.Remove(a + i)
+		}
+		return "ok"
 	case "get":
 		v, ok := r.t.Get(atoi(op[1]))
 		return itoa(v) + " " + b2s(ok)
@@ -331,6 +341,40 @@ func genC10(g *Gen) {
 			}
 		}
 		ops = append(ops, "size", "height", "shape", "traverse")
+		g.Emit("btree", nil, ops)
+	}
+	// long runs through the bulk lines: standard sizes and sizes around thresholds a change introduced
+	longs := []int{3000}
+	if g.Thorough() {
+		longs = append(longs, 40000)
+	}
+	for _, s := range extraSizes() {
+		if s >= 1000 && s <= 300000 {
+			longs = append(longs, s+2, 2*s+3)
+		}
+	}
+	for _, n := range longs {
+		if !g.Mine() {
+			continue
+		}
+		probe := func(ks ...int) []string {
+			out := []string{"size", "isempty", "height"}
+			for _, k := range ks {
+				out = append(out, "get "+itoa(k))
+			}
+			return out
+		}
+		ops := []string{"put -5 1", "put -3 2", "fillasc 0 " + itoa(n)}
+		ops = append(ops, probe(-5, 0, n/2, n-1, n)...)
+		// remove everything below n-1 in three blocks (observed between them), then the rest one by one
+		ops = append(ops, "remove -5", "remove -3", "removeasc 0 "+itoa(n/2))
+		ops = append(ops, probe(0, n/2-1, n/2, n-1)...)
+		ops = append(ops, "removeasc "+itoa(n/2)+" "+itoa(n-3-n/2))
+		ops = append(ops, probe(n-4, n-3, n-1)...)
+		ops = append(ops, "traverse", "removeasc "+itoa(n-3)+" 2")
+		ops = append(ops, probe(n-3, n-2, n-1)...)
+		ops = append(ops, "traverse", "remove "+itoa(n-1), "size", "isempty", "traverse", "get "+itoa(n-1),
+			"put 7 70", "put "+itoa(n+9)+" 1", "size", "get 7", "traverse", "height")
 		g.Emit("btree", nil, ops)
 	}
 	// adversarial insertion orders found by a greedy search on the real code (shape hook): sparse trees
